@@ -440,6 +440,10 @@ def run(ctx):
             b_ = prog.body(k_)
             if any(callee_name(t_).endswith("::insert") and "HashMap" in callee_name(t_) and self_path(b_.expr_operand(t_["args"][0])) == (_R["memo"],) for (_, t_) in b_.calls()):
                 fill_fns.add(k_)
+    # … or calls the private stage that does
+    cg_ = prog.callgraph()
+    fill_fns |= {k_ for k_, f_ in prog.fns.items() if ((f_.get("impl") or {}).get("self") or "") == _R["sug_ty"] and f_.get("kind") != "Closure"
+                 and (set(cg_[k_]) & fill_fns)}
     for p in events:
         src = classify_source(prog, p) if p.item is not None else None
         fwd = p.item is None and p.kind in ("push", "push_checked") and p.fn in fill_fns
@@ -449,7 +453,24 @@ def run(ctx):
                 r4.ok(key, "enters through the checked push")
             else:
                 r4.violation(key, "%s items are pushed without the duplicate check" % (src or "dictionary/suffix"), site_of(p.outer_body, p.outer_bb))
-    r4.floor(4, "helper, equality, dictionary/suffix loop, transliteration")
+    # the raw English candidate: nothing compares it with the candidates already in the list (only with the captured punctuation), so a text
+    # the conversion leaves unchanged is listed twice
+    for p in events:
+        if p.item is None or classify_source(prog, p) != "english":
+            continue
+        key = "english-unchecked" if p.kind == "push" else "english@%s" % p.fn.split("::")[-1]
+        if p.kind == "push_checked":
+            r4.ok(key, "the English candidate enters through the checked push")
+            continue
+        gs_ = builders.effective_guards(prog, p.outer_body, p.outer_bb)
+        compared = any(d.k == "call" and (d.a[0].endswith("::contains") or d.a[0].endswith("Iterator>::any") or d.a[0].endswith("::position"))
+                       and any(self_path(x) is not None and self_path(x)[:1] == (_R["rank_list"],) for x in d.walk()) for (d, pol, s_) in gs_)
+        if compared:
+            r4.ok(key, "the English candidate is pushed only when the list does not contain it")
+        else:
+            r4.violation(key, "the raw English candidate is pushed without being compared with the candidates already in the list: a typed text the conversion leaves "
+                         "unchanged (`\\` alone: transliteration `\\`, English `\\`) occurs twice", site_of(p.outer_body, p.outer_bb))
+    r4.floor(5, "helper, equality, dictionary/suffix loop, transliteration, English")
 
     # ---------------- R5 the bundled tables are the data files'
     r5 = chk.rule("C07.R5", "the auto-correct, dictionary and suffix tables are the bundled data files as deserialised (nothing pruned or rewritten after loading)",
